@@ -103,7 +103,64 @@ Definition guard_table : list (string * list string) := [
   ("filtering.DNSFilter.hostCheckers", ["filtering.DNSFilter.confMu"]);
   ("stats.StatsCtx.filename", ["stats.StatsCtx.confMu"]);
   ("stats.StatsCtx.shouldCountClient", ["stats.StatsCtx.confMu"]);
-  ("stats.StatsCtx.unitIDGen", ["stats.StatsCtx.confMu"])
+  ("stats.StatsCtx.unitIDGen", ["stats.StatsCtx.confMu"]);
+  (* round 2: the rest of the state named by the property *)
+  (* internal/home/tls.go: "mu protects status, certLastMod, conf, and servePlainDNS" *)
+  ("home.tlsManager.status", ["home.tlsManager.mu"]);
+  ("home.tlsManager.certLastMod", ["home.tlsManager.mu"]);
+  ("home.tlsManager.conf", ["home.tlsManager.mu"]);
+  ("home.tlsManager.servePlainDNS", ["home.tlsManager.mu"]);
+  (* internal/home/signal.go: "mu protects clientStorage and tlsManager" *)
+  ("home.signalHandler.clientStorage", ["home.signalHandler.mu"]);
+  ("home.signalHandler.tlsManager", ["home.signalHandler.mu"]);
+  (* internal/home/auth.go: the session table and the user list; no comment, but
+     every method of Auth that touches them (checkSession, storeSession,
+     removeSession, findUser, usersList, addUser, ...) takes a.lock *)
+  ("home.Auth.sessions", ["home.Auth.lock"]);
+  ("home.Auth.users", ["home.Auth.lock"]);
+  (* internal/home/authratelimiter.go: "failedAuthsLock protects failedAuths" *)
+  ("home.authRateLimiter.failedAuths", ["home.authRateLimiter.failedAuthsLock"]);
+  (* internal/home/clients.go: "lock protects all fields" (those that change at
+     run time; the storage pointer is set once and the Storage behind it has its
+     own mutex, see client.Storage.* above) *)
+  ("home.clientsContainer.clientChecker", ["home.clientsContainer.lock"]);
+  (* internal/dhcpd/v6_unix.go: ipAddrs is the occupancy map of leases, updated
+     by addLease / leaseRemoveSwapByIndex together with leases under leasesLock *)
+  ("dhcpd.v6Server.ipAddrs", ["dhcpd.v6Server.leasesLock"]);
+  (* NOT listed, although the source declares a guard: safesearch.Default.engine
+     ("mu protects engine") and ipset.manager.{ipv4Conn,ipv6Conn}: they are
+     also initialised by helper methods called from their constructors
+     (NewDefault -> resetEngine, newManager -> dialNetfilter) on the object
+     that is not yet published; the translator only recognises a fresh object
+     inside the allocating function and would report those initialisations. *)
+  (* internal/filtering/rulelist/{engine,textengine}.go: "mu protects engine and storage" *)
+  ("filtering/rulelist.Engine.engine", ["filtering/rulelist.Engine.mu"]);
+  ("filtering/rulelist.Engine.storage", ["filtering/rulelist.Engine.mu"]);
+  ("filtering/rulelist.TextEngine.engine", ["filtering/rulelist.TextEngine.mu"]);
+  ("filtering/rulelist.TextEngine.storage", ["filtering/rulelist.TextEngine.mu"]);
+  (* internal/ipset/ipset_linux.go: "mu protects all properties below" *)
+  ("ipset.manager.addedIPs", ["ipset.manager.mu"]);
+  (* internal/updater/updater.go: "mu protects all fields below" *)
+  ("updater.Updater.currentExeName", ["updater.Updater.mu"]);
+  ("updater.Updater.updateDir", ["updater.Updater.mu"]);
+  ("updater.Updater.packageName", ["updater.Updater.mu"]);
+  ("updater.Updater.backupDir", ["updater.Updater.mu"]);
+  ("updater.Updater.backupExeName", ["updater.Updater.mu"]);
+  ("updater.Updater.updateExeName", ["updater.Updater.mu"]);
+  ("updater.Updater.unpackedFiles", ["updater.Updater.mu"]);
+  ("updater.Updater.newVersion", ["updater.Updater.mu"]);
+  ("updater.Updater.packageURL", ["updater.Updater.mu"]);
+  ("updater.Updater.prevCheckError", ["updater.Updater.mu"]);
+  ("updater.Updater.prevCheckTime", ["updater.Updater.mu"]);
+  ("updater.Updater.prevCheckResult", ["updater.Updater.mu"]);
+  (* internal/aghuser/{sessionstorage,db}.go: "mu protects sessions", "mu protects all properties below" *)
+  ("aghuser.DefaultSessionStorage.sessions", ["aghuser.DefaultSessionStorage.mu"]);
+  ("aghuser.DefaultDB.loginToUserID", ["aghuser.DefaultDB.mu"]);
+  ("aghuser.DefaultDB.userIDToUser", ["aghuser.DefaultDB.mu"]);
+  (* internal/dhcpsvc/server.go: "leasesMu protects the leases index as well as leases in the interfaces" *)
+  ("dhcpsvc.DHCPServer.leases", ["dhcpsvc.DHCPServer.leasesMu"]);
+  (* internal/filtering/rewrite/storage.go: "mu protects items" *)
+  ("filtering/rewrite.DefaultStorage.items", ["filtering/rewrite.DefaultStorage.mu"])
 ].
 
 (** Method names that modify their receiver: a call of such a method on a value
